@@ -154,7 +154,8 @@ def judge_sampler(flags, items, nframes):
             evs.append(E.ev('MACH_WAIT', 0, (0x10, 0, 0, 0)))
         else:
             evs.append(E.ev('PERF_STK_UData', 0, (0xdead, 0xbeef, 0, 0), tid=2))
-    evs.append(E.ev('PERF_Event', 2, (flags, 0, 0, 0)))
+    # the END record's first word is not the sampler's action mask (the kernel logs other flags there): here its complement
+    evs.append(E.ev('PERF_Event', 2, (flags ^ 0xf, 0, 0, 0)))
     try:
         out = run(evs)
         pe = [t for t in out if type(t).__name__ == 'PerfEvent' and t.ktraces[0].func_qualifier == 1]
@@ -196,7 +197,7 @@ def judge_sampler_pair(flags1, items1, flags2, items2):
                 evs.append(E.ev('PERF_STK_UData', 0, w))
             elif it == 'W':
                 evs.append(E.ev('MACH_WAIT', 0, (0x10, 0, 0, 0)))
-        evs.append(E.ev('PERF_Event', 2, (flags, 0, 0, 0)))
+        evs.append(E.ev('PERF_Event', 2, (flags ^ 0xf, 0, 0, 0)))
         return evs, words
     e1, w1 = window(flags1, items1, 1)
     e2, w2 = window(flags2, items2, 2)
